@@ -32,6 +32,16 @@ BIG = [99, 100, 101, 199, 200, 201]
 @st.composite
 def cases(draw):
     big = draw(st.integers(0, 9)) == 0
+    if draw(st.integers(0, 11)) == 0:
+        # a long disparity axis (more samples than an 8-bit index holds); the volume is a seeded pseudo-random field
+        nd = draw(st.sampled_from([255, 256, 257, 300, 513, 700]))
+        subpix = draw(st.sampled_from([1, 4]))
+        d0 = draw(st.sampled_from([-350, -128, 0, 3]))
+        return {"ny": draw(st.integers(1, 3)), "nx": draw(st.integers(1, 4)),
+                "disps": [d0 + k / subpix for k in range(nd)] if subpix != 1 else [d0 + k for k in range(nd)],
+                "subpix": subpix, "type": draw(st.sampled_from(["min", "max"])), "tile": None, "patches": [],
+                "long": {"seed": draw(st.integers(0, 10 ** 6)), "nan": draw(st.sampled_from([0.0, 0.1, 0.6]))},
+                "invalid": draw(st.sampled_from([-9999, "NaN"])), "nconf": 0, "mask_vals": [0]}
     nd = draw(st.integers(1, 7))
     subpix = draw(st.sampled_from([1, 1, 2, 4]))
     d0 = draw(st.integers(-6, 4))
@@ -66,6 +76,16 @@ def cases(draw):
 
 
 def materialise(p):
+    if p.get("long"):
+        ny, nx, nd = p["ny"], p["nx"], len(p["disps"])
+        rs = np.random.RandomState(p["long"]["seed"])
+        cv = rs.randint(0, 60, (ny, nx, nd)).astype(np.float32)
+        cv[rs.rand(ny, nx, nd) < p["long"]["nan"]] = np.nan
+        # one strict winner per pixel, anywhere on the axis (often beyond position 255)
+        for r in range(ny):
+            for c in range(nx):
+                cv[r, c, rs.randint(0, nd)] = -5.0 if p["type"] == "min" else 99.0
+        return cv, np.zeros((ny, nx), dtype=np.uint16), {}
     tile = build.arr(p["tile"])
     ty, tx, nd = tile.shape
     ny, nx = p["ny"], p["nx"]
@@ -154,6 +174,8 @@ def body(ctx: Ctx, p: dict) -> None:
     if p["subpix"] != 1:
         classes.append("subpixel-axis")
     ctx.judged += int(cv_np.shape[0] * cv_np.shape[1])
+    if p.get("long"):
+        classes.append("axis-longer-than-255-samples" if len(p["disps"]) > 255 else "axis-255-samples")
     ctx.case(p, nontrivial=bool(ties.any() and allnan_px.any() and regular.any()), classes=classes)
 
 
